@@ -508,6 +508,29 @@ fn layer_b(tier: Tier, findings: &Mutex<Findings>) -> (u64, u64, u64, u64, usize
         let u = &units[ui];
         let mut stats = Stats::default();
         let ctx = u.cell.name();
+        // trace-level logging is a configuration too: the Debug impls of every instrumented
+        // argument then run on the hostile input (thorough: every unit both ways; quick: a third)
+        // (formatting is some hundred times dearer than parsing, so the logging pass takes the
+        // unit at its full length only - thorough: at the boundary lengths - and, for the 2^16
+        // sweeps, the boundary values)
+        let passes: &[bool] = if u.width == 99 || (tier == Tier::Quick && u.width == 1 && ui % 3 != 0) { &[false] } else { &[false, true] };
+        for &logging in passes {
+        crate::tracelog::set(logging);
+        let ctx = if logging { format!("{ctx}/trace-logging") } else { ctx.clone() };
+        let tlen = u.tmpl.bytes.len();
+        let (values, lengths): (Vec<u32>, Vec<usize>) = if !logging {
+            (u.values.clone(), u.lengths.clone())
+        } else {
+            let vals = if u.width == 2 && u.values.len() > 4096 { v16_boundary() } else { u.values.clone() };
+            let lens = if u.width == 0 {
+                u.lengths.iter().copied().filter(|l| tier == Tier::Thorough || l % 4 == 0 || l.abs_diff(tlen) < 8).collect()
+            } else if tier == Tier::Thorough {
+                boundary_lengths(tlen, &[]).into_iter().filter(|l| u.lengths.contains(l)).collect()
+            } else {
+                vec![tlen]
+            };
+            (vals, lens)
+        };
         if u.width == 99 {
             // expand the small alphabet into a batch of explicit templates
             let alpha = [0x00u8, 0x45, 0x4f, 0xff];
@@ -533,8 +556,10 @@ fn layer_b(tier: Tier, findings: &Mutex<Findings>) -> (u64, u64, u64, u64, usize
                 }
             }
         } else {
-            let mut b = Batch { tmpl: u.tmpl.clone(), off: u.off, width: u.width, values: u.values.clone(), lengths: u.lengths.clone(), vi: 0, li: 0, pad: u.pad };
+            let mut b = Batch { tmpl: u.tmpl.clone(), off: u.off, width: u.width, values, lengths, vi: 0, li: 0, pad: u.pad };
             run_batch(&u.cell, &u.p, &mut b, &mut stats, &ctx);
+        }
+        crate::tracelog::set(false);
         }
         let mut a = agg.lock().unwrap();
         a.0 += stats.fed;
@@ -570,6 +595,9 @@ pub fn run(args: &Args) -> i32 {
     let tier = args.tier;
     let mut rep = Report::new("C04", tier, "exploration");
     let findings: Mutex<Findings> = Mutex::new(Findings::new());
+    if let Err(e) = crate::tracelog::self_test() {
+        panic!("MACHINERY: trace-logging seam: {e}");
+    }
     let (a_calls, a_accepted) = layer_a(tier, &findings);
     let (fed, errs, none, responses, units) = layer_b(tier, &findings);
     rep.merge_findings(findings.into_inner().unwrap());
@@ -578,10 +606,13 @@ pub fn run(args: &Args) -> i32 {
     rep.set("layer_a_exerciser_calls", json!(a_calls));
     rep.set("layer_b_datagrams", json!(fed));
     rep.set("layer_b_units", json!(units));
+    let (spans, octets) = crate::tracelog::totals();
+    rep.observe("trace_logging_spans_created", json!(spans));
+    rep.observe("trace_logging_octets_of_debug_output_formatted", json!(octets));
     rep.observe("datagrams_rejected_with_error_value", json!(errs));
     rep.observe("datagrams_ignored", json!(none));
     rep.observe("datagrams_yielding_a_response_passed_through_the_strategy", json!(responses));
-    rep.set("rule", json!("Layer A: 19 view types x lengths {min..min+64,128,129,576,1024} x fill {00,FF} x every value of each length/offset-bearing field (8-bit: all; 16-bit: all near the extremes, stride 251 elsewhere in quick, all in thorough); every getter, payload/packet/options accessor, iterator (ceiling = len+1) and Debug. Layer B: real Channel<SimSocket>::recv_probe inside a real Strategy::run for 18 configurations x 7-8 response templates built from the probe the real dispatch code emitted: every structural octet x all 256 values x received lengths (quick: within +-6 of every structural boundary; thorough: all 0..1024), unmodified template at every length 0..1024 x 2 paddings, 16-bit fields x all 2^16 values at the full length (thorough: at every boundary length) + boundary value set x boundary lengths, all strings of length <=5 over {00,45,4F,FF} at each header start. distinct_nontrivial = inputs that got past construction (layer A) or produced a response / an error value (layer B)"));
+    rep.set("rule", json!("Layer A: 19 view types x lengths {min..min+64,128,129,576,1024} x fill {00,FF} x every value of each length/offset-bearing field (8-bit: all; 16-bit: all near the extremes, stride 251 elsewhere in quick, all in thorough); every getter, payload/packet/options accessor, iterator (ceiling = len+1) and Debug. Layer B: real Channel<SimSocket>::recv_probe inside a real Strategy::run for 18 configurations x 7-8 response templates built from the probe the real dispatch code emitted: every structural octet x all 256 values x received lengths (quick: within +-6 of every structural boundary; thorough: all 0..1024), unmodified template at every length 0..1024 x 2 paddings, 16-bit fields x all 2^16 values at the full length (thorough: at every boundary length) + boundary value set x boundary lengths, all strings of length <=5 over {00,45,4F,FF} at each header start; the units run a second time with trace-level logging switched on - at the full received length (thorough: at the boundary lengths), a third of the 8-bit sweeps in quick, boundary values for the 16-bit sweeps, every fourth length for the unmodified templates - (a tracing subscriber that formats every field of every span and event), so the Debug impls of all instrumented arguments run on the same inputs. distinct_nontrivial = inputs that got past construction (layer A) or produced a response / an error value (layer B)"));
     rep.sample(json!({"layer": "B", "config": "udp/v6/dublin/fixedboth/priv/ext", "template": "TE-ext-compliant", "mutation": "octet 4 (RFC 4884 length) = every value 0..255, received length 0..1024"}));
     rep.sample(json!({"layer": "A", "view": "ExtensionObjectPacket", "bytes": "4..68 octets of 00/FF with the 16-bit length field swept"}));
     rep.assumptions = vec!["an Err value from recv_probe is allowed by the statement (DESIGN.md 5.6)".into(), crate::c01::ASSUME.into()];
